@@ -67,6 +67,94 @@ pub proof fn lemma_count_lt_bounds(d: Seq<Duration>, n: int, x: int, y: int)
     if n > 0 { lemma_count_lt_bounds(d, n - 1, x, y); }
 }
 
+
+// ------------------------------------------------------------------ C10 / C12 / C13: event sequences that respect the delta-min prefix
+pub open spec fn respects_dmin(rel: Seq<int>, d: Seq<Duration>) -> bool {
+    forall |i: int, n: int| #![trigger rel[i], dm(d, n - 2)] 0 <= i && 2 <= n <= d.len() + 1 && i + n - 1 < rel.len() ==> rel[i + n - 1] - rel[i] >= dm(d, n - 2)
+}
+pub open spec fn sorted(s: Seq<int>) -> bool { forall |i: int, k: int| 0 <= i <= k < s.len() ==> s[i] <= s[k] }
+pub open spec fn run_in_window(rel: Seq<int>, i: int, n: int, w: int, delta: int) -> bool {
+    0 <= i && n >= 0 && i + n <= rel.len() && forall |x: int| i <= x < i + n ==> w <= #[trigger] rel[x] < w + delta
+}
+pub proof fn lemma_count_lt_ge(d: Seq<Duration>, n: int, x: int, k: int)
+    requires dmin_wf(d), 0 <= k <= n <= d.len(), forall |j: int| 0 <= j < k ==> dm(d, j) < x
+    ensures count_lt(d, n, x) >= k
+    decreases n
+{
+    if n > k { lemma_count_lt_ge(d, n - 1, x, k); } else if n > 0 { lemma_count_lt_ge(d, n - 1, x, k - 1); }
+}
+pub proof fn lemma_na_shift(d: Seq<Duration>, delta: int)
+    requires dmin_wf(d), delta >= dm(d, d.len() - 1)
+    ensures na_curve(d, delta) == na_curve(d, delta - dm(d, d.len() - 1)) + d.len(), na_curve(d, delta - dm(d, d.len() - 1)) >= 0
+{
+    let big = dm(d, d.len() - 1); let len = d.len() as int;
+    let q = delta / big; let r = delta % big;
+    lemma_fundamental_div_mod(delta, big); lemma_mod_bound(delta, big); lemma_div_pos_is_pos(delta, big);
+    assert(q >= 1) by { if q <= 0 { assert(big * q <= 0) by { lemma_mul_nonnegative(big, -q); lemma_mul_unary_negation(big, -q); } } }
+    assert((q - 1) * big == big * q - big) by { lemma_mul_is_distributive_sub(big, q, 1); lemma_mul_is_commutative(big, q - 1); }
+    lemma_fundamental_div_mod_converse(delta - big, big, q - 1, r);
+    assert((q - 1) * len == q * len - len) by { lemma_mul_is_distributive_sub_other_way(len, q, 1); }
+    lemma_count_lt_bounds(d, len, r, r);
+    lemma_mul_nonnegative(q - 1, len);
+    assert((delta - big) / big == q - 1 && (delta - big) % big == r);
+    if delta - big == 0 {
+        assert(q == 1 && r == 0) by { if q >= 2 { lemma_mul_inequality(2, q, big); lemma_mul_is_commutative(big, q); } }
+        assert(q * len == len) by { lemma_mul_basics(len); }
+    } else {
+        assert(na_curve(d, delta - big) == (q - 1) * len + eta(d, r));
+    }
+    assert(na_curve(d, delta) == q * len + eta(d, r));
+}
+/// No window of length delta contains more releases than the curve claims -- for EVERY delta,
+/// not only within the recorded prefix.
+pub proof fn lemma_curve_never_undercounts(rel: Seq<int>, d: Seq<Duration>, i: int, m: int, w: int, delta: int)
+    requires dmin_wf(d), sorted(rel), respects_dmin(rel, d), delta >= 0, run_in_window(rel, i, m, w, delta)
+    ensures m <= na_curve(d, delta)
+    decreases delta
+{
+    let big = dm(d, d.len() - 1); let len = d.len() as int;
+    if m >= 1 {
+        assert(w <= rel[i] < w + delta);
+        assert(delta >= 1);
+        if delta < big {
+            lemma_small_mod(delta as nat, big as nat); lemma_basic_div(delta, big);
+            // q = 0, na = eta(delta)
+            if m >= 2 {
+                assert(w <= rel[i + m - 1] < w + delta);
+                if m >= len + 2 {
+                    assert(rel[i + (len + 1) - 1] - rel[i] >= dm(d, (len + 1) - 2));
+                    assert(rel[i + len] <= rel[i + m - 1]);
+                }
+                assert forall |j: int| 0 <= j < m - 1 implies dm(d, j) < delta by {
+                    assert(rel[i + (j + 2) - 1] - rel[i] >= dm(d, (j + 2) - 2));
+                    assert(rel[i + j + 1] <= rel[i + m - 1]);
+                }
+                lemma_count_lt_ge(d, len, delta, m - 1);
+            } else {
+                lemma_count_lt_bounds(d, len, delta, delta);
+            }
+            assert((delta / big) * len == 0) by { lemma_mul_basics(len); }
+        } else {
+            lemma_na_shift(d, delta);
+            if m > len {
+                // the (len+1)-th event of the run is at least D after the first one
+                assert(rel[i + (len + 1) - 1] - rel[i] >= dm(d, (len + 1) - 2));
+                assert forall |x: int| i + len <= x < i + len + (m - len) implies w + big <= #[trigger] rel[x] < (w + big) + (delta - big) by {
+                    assert(rel[i + len] <= rel[x]);
+                    assert(w <= rel[x] < w + delta);
+                }
+                lemma_curve_never_undercounts(rel, d, i + len, m - len, w + big, delta - big);
+            }
+        }
+    } else {
+        if delta > 0 {
+            lemma_fundamental_div_mod(delta, big); lemma_mod_bound(delta, big); lemma_div_pos_is_pos(delta, big);
+            lemma_count_lt_bounds(d, len, delta % big, delta % big);
+            lemma_mul_nonnegative(delta / big, len);
+        }
+    }
+}
+
 // ------------------------------------------------------------------ extracted code
 #[derive(Clone, Debug)]
 pub struct Curve {
